@@ -345,6 +345,13 @@ pub fn consts_json() -> String {
             let prog = s.split_whitespace().next().unwrap_or("").trim_start_matches("prog=").to_string();
             let d0 = s.rsplit("data=").next().and_then(|h| u8::from_str_radix(h.get(0..2).unwrap_or("zz"), 16).ok()).map(|b| b as i32).unwrap_or(-1);
             enc.push(format!("[\"inline:{:?}:{}\",\"{}\",{}]", v, with_ctx as u8, prog, d0));
+            // the discriminator is the variant's, whatever proof data the caller hands over: the same builder with the
+            // next proof type's data
+            let j = (i % 12) + 1;
+            let s: String = with_proof_types!(j, ix_verify, v, &zeros[..data_size(j)], if with_ctx { Some((a1, a2)) } else { None });
+            let prog = s.split_whitespace().next().unwrap_or("").trim_start_matches("prog=").to_string();
+            let d0 = s.rsplit("data=").next().and_then(|h| u8::from_str_radix(h.get(0..2).unwrap_or("zz"), 16).ok()).map(|b| b as i32).unwrap_or(-1);
+            enc.push(format!("[\"inline-other-data:{:?}:{}\",\"{}\",{}]", v, with_ctx as u8, prog, d0));
         }
     }
     {
